@@ -609,6 +609,7 @@ def run(ctx):
     # whole solves with the real steps, as canonical forms (solver_replay.py)
     from . import solver_replay
     ctx.guard(solver_replay.r12_10)
+    ctx.guard(solver_replay.r12_11)
 
 
 EXPLANATION = EXPLANATION + " " + (
